@@ -203,7 +203,8 @@ def async_assembly_model(ctx, repo):
 
 def async_assembly(ctx, repo):
     async_assembly_model(ctx, repo)
-    fi = repo.own_method("GeckoAsyncStructure", "get")
+    from .c06 import operation_body as _ob1
+    fi = _ob1(repo, repo.own_method("GeckoAsyncStructure", "get"))     # a wrapper without loops stands for the helper that has them
     g = cfg_of(fi)
     key = fi.qual
     heads_ = [h for h in __import__("vlib.pathrules", fromlist=["loop_heads"]).loop_heads(g)]
@@ -718,6 +719,9 @@ def check(ctx):
     ctx.rule("R13", "a transfer that was abandoned does not block the next: the request lock held across a transfer is released on EVERY exit of the locked section - its __aexit__ awaits the asyncio lock's on every path, the exception path (a task cancelled while it waits for the rest of the chain) included; a lock left held makes every later transfer on the connection wait for ever: it neither succeeds nor fails (C06.R2's lock rule borrowed)")
     from .c06 import request_lock_delegates as _rld1
     _rld1(ctx.borrowed("R13", "C06"), repo, "R2")
+    ctx.rule("R14", "a block segment is taken by the transfer and by nobody else: the standing consumers of the connection poll the same queue as the transfer's waiter, so none of them may claim a datagram that merely CONTAINS its verb - block bytes are arbitrary, and a segment whose 39 bytes happen to hold `WCERR` would be popped by the water-care error consumer: that segment is missing from every attempt and the transfer fails on a fault-free network (C07.R8's acceptance probes borrowed)")
+    from .c07 import acceptance_by_complete_verb as _abcv1
+    _abcv1(ctx.borrowed("R14", "C07"), repo, "R8")
     async_assembly(ctx, repo)
     # the completed assembler keeps its segment list until the engine's clean-up removes the handler: the engine must
     # not dispatch a second datagram before that (engine model, vlib/enginemodel.py)
